@@ -13,6 +13,7 @@ import Acra.Gen.Src.Cls.PTPTime
 import Acra.Gen.Src.Cls.RTCTime
 import Acra.Gen.Src.Cls.UDP
 import Acra.Gen.Src.Cls.PcapRecord
+import Acra.Gen.Src.Cls.ICMP
 import Acra.Model.iNetX
 import Acra.Model.Pcap
 import Acra.Model.Ch11
@@ -158,5 +159,25 @@ theorem ofModel_toModel (o : Obj) (h : Dom o) : ofModel (toModel o) = o := by
   simp only [toModel, ofModel] at *
   simp only [Int.toNat_of_nonneg, h1, h2, h3, h4]
 end PcapRecord
+
+/-! ### ICMP (SimpleEthernet.py, pack only) — model `Model.Net.ICMP`, every attribute carried -/
+namespace ICMP
+abbrev Obj := Gen.Src.Cls.ICMP.Obj
+def toModel (o : Obj) : Model.Net.ICMP :=
+  { type := o.type.toNat, code := o.code.toNat, request_id := o.request_id.toNat,
+    request_sequence := o.request_sequence.toNat, payload := o.payload }
+def ofModel (s : Model.Net.ICMP) : Obj :=
+  { type := s.type, code := s.code, request_id := s.request_id, request_sequence := s.request_sequence,
+    payload := s.payload }
+def Dom (o : Obj) : Prop := 0 ≤ o.type ∧ 0 ≤ o.code ∧ 0 ≤ o.request_id ∧ 0 ≤ o.request_sequence
+instance (o : Obj) : Decidable (Dom o) := by unfold Dom; infer_instance
+@[simp] theorem toModel_ofModel (s : Model.Net.ICMP) : toModel (ofModel s) = s := by
+  cases s; simp [toModel, ofModel]
+theorem ofModel_toModel (o : Obj) (h : Dom o) : ofModel (toModel o) = o := by
+  obtain ⟨h1, h2, h3, h4⟩ := h
+  cases o
+  simp only [toModel, ofModel] at *
+  simp only [Int.toNat_of_nonneg, h1, h2, h3, h4]
+end ICMP
 
 end Acra.Lemmas.SrcTieCls
